@@ -117,12 +117,76 @@ def mesh2Num : P String := do
   out := out ++ s!" file {prec} {wRes enc (Fmt.output2 m prec)} filevar {wRes enc (Fmt.outputVar2 m 0 prec)}"
   pure out
 
+/-- views of an f64 1-D mesh after every step of a history: quadrature of every variable (and of one beyond), interpolation at `xs` -/
+def views1 (m : Mesh1 Float Float) (xs : Array Float) : String := Id.run do
+  let mut out := ""
+  for q in [0:m.nvars + 1] do
+    out := out ++ " " ++ wRes Wire.wr (Mesh1.trapezium m q)
+  for x in xs do
+    out := out ++ " " ++ wRes wArr (Mesh1.interpolate m x)
+  pure out
+
+def mesh1FHist : P String := do
+  let nodes : Array Float ← pArr
+  let nvars ← pNat
+  let xs : Array Float ← pArr
+  let nops ← pNat
+  let mut m : Mesh1 Float Float := Mesh1.new nodes nvars
+  let mut out := dump1 m ++ " ~" ++ views1 m xs
+  for _ in [0:nops] do
+    let op ← tok
+    let st (r : Res (Mesh1 Float Float)) : P (Mesh1 Float Float × String) :=
+      match r with
+      | .ok m' => pure (m', "ok")
+      | .error e => pure (m, "!" ++ toString e)
+    let (m', o) ← (match op with
+      | "set" => do let i ← pNat; let v : Array Float ← pArr; st (Mesh1.setNodesVars m i v)
+      | "setvar" => do let i ← pNat; let k ← pNat; let x : Float ← Wire.rd; st (Mesh1.setVar m i k x)
+      | "reread" => do let prec ← pNat; pure (Fmt.read m (Fmt.output m prec), "ok")
+      | _ => throw s!"unknown mesh1 f-op {op}" : P (Mesh1 Float Float × String))
+    m := m'
+    out := out ++ s!" ; {op} {o} | {dump1 m} ~{views1 m xs}"
+  pure out
+
+def views2 (m : Mesh2 Float Float) : String := Id.run do
+  let mut out := ""
+  for q in [0:m.nvars] do
+    out := out ++ s!" {wRes Wire.wr (Mesh2.trapezium m q)} {wRes Wire.wr (Mesh2.squareTrapezium m q)}"
+  pure out
+
+def mesh2FHist : P String := do
+  let xn : Array Float ← pArr
+  let yn : Array Float ← pArr
+  let nvars ← pNat
+  let nops ← pNat
+  let mut m : Mesh2 Float Float := Mesh2.new xn yn nvars
+  let mut out := dump2 m ++ " ~" ++ views2 m
+  for _ in [0:nops] do
+    let op ← tok
+    let st (r : Res (Mesh2 Float Float)) : P (Mesh2 Float Float × String) :=
+      match r with
+      | .ok m' => pure (m', "ok")
+      | .error e => pure (m, "!" ++ toString e)
+    let (m', o) ← (match op with
+      | "set" => do let i ← pNat; let j ← pNat; let v : Array Float ← pArr; st (Mesh2.setNodesVars m i j v)
+      | "setvar" => do let i ← pNat; let j ← pNat; let k ← pNat; let x : Float ← Wire.rd; st (Mesh2.setVar m i j k x)
+      | "assign" => do let x : Float ← Wire.rd; st (Mesh2.assign m x)
+      | "xtrap" => do
+        let i ← pNat; let q ← pNat
+        pure (m, outcome (((Mesh2.crossSectionX m i).bind (fun s => Mesh1.trapezium s q)).map Wire.wr))
+      | _ => throw s!"unknown mesh2 f-op {op}" : P (Mesh2 Float Float × String))
+    m := m'
+    out := out ++ s!" ; {op} {o} | {dump2 m} ~{views2 m}"
+  pure out
+
 def exec (op : String) : P (Option String) := do
   match op with
   | "mesh1_hist" => some <$> mesh1Hist
   | "mesh2_hist" => some <$> mesh2Hist
   | "mesh1_num" => some <$> mesh1Num
   | "mesh2_num" => some <$> mesh2Num
+  | "mesh1_fhist" => some <$> mesh1FHist
+  | "mesh2_fhist" => some <$> mesh2FHist
   | _ => pure none
 end DrvMesh
 end Ohsl
